@@ -62,7 +62,10 @@ class C12(PropBase):
             t = rng.choice([{"k": "any"}, {"k": "bare", "n": "tuple"}, {"k": "bare", "n": "list"}, {"k": "raw", "src": "tuple[typing.Any, ...]"},
                             {"k": "raw", "src": "dict[str, typing.Any]"}, {"k": "raw", "src": "list[typing.Any]"}])
             lits = ["(1, [2, 3])", "{'a': (1, {'b': 2})}", "[1, (2, [3])]", "([], {})", "{'k': ([1], [2])}", "[[1, 2], [3]]", '{"a": [1, {"b": []}]}']
-            vals = [(x, x) for x in rng.sample(lits, 3)]
+            # flat documents in between: what the memo made of one document says nothing about the next one
+            # (not even when the next one's containers come to lie where the last one's were)
+            flats = ["[1, 2, 3]", '{"a": 1, "b": 2}', "[4, 5]", '{"k": "v"}', "[7]"]
+            vals = [(x, x) for x in rng.sample(lits, 3) + rng.sample(flats, 2)]
             items.append({"variants": [t], "vals": vals, "literal": True})
         if rng.random() < 0.3:
             # unions in which an earlier member takes only some values of a class that a later member
@@ -156,6 +159,20 @@ class C12(PropBase):
             if it.get("timeonly"):
                 x = hist.carry(v, rng.choice(["str", "str", "bytes"]))
                 steps.append({"id": len(steps), "t": t, "mod": rng.choice(mods), "op": "unmarshal", "x": {"$list": [x]} if t["k"] == "list" else x})
+                continue
+            if it.get("literal") and ("clear" in sw or "shrink" in sw) and rng.random() < 0.3:
+                # motif: a flat document, the text memo emptied, a nested document, the caller edits what it got,
+                # the nested document again
+                flat = rng.choice(["[1, 2, 3]", '{"a": 1, "b": 2}', "[4, 5]", "[7]", '{"k": "v"}'])
+                nested = rng.choice(["[[1, 2], [3]]", '{"a": [1, {"b": []}]}', "[[1000], [1001], [1002]]", '{"x": {"y": [1]}}'])
+                carrier = rng.choice(["str", "bytes"])
+                mod_ = rng.choice(mods)
+                for rep in range(rng.randint(1, 3)):
+                    steps.append({"id": len(steps), "t": t, "mod": mod_, "op": "unmarshal", "x": hist.carry(flat, carrier)})
+                steps.append({"id": len(steps), "op": "clear", "group": "values"} if "clear" in sw else {"id": len(steps), "op": "shrink", "name": "strload", "cap": 1})
+                steps.append({"id": len(steps), "t": t, "mod": mod_, "op": "unmarshal", "x": hist.carry(nested, carrier)})
+                steps.append({"id": len(steps), "op": "mutate_result", "ref": len(steps) - 1})
+                steps.append({"id": len(steps), "t": t, "mod": mod_, "op": "unmarshal", "x": hist.carry(nested, carrier)})
                 continue
             if it.get("literal"):
                 # unmarshal the literal text in a text carrier; results are mutated by later faults
